@@ -341,3 +341,64 @@ def spec_c14(tier, seed):
         assumptions=['wall clock and loop clock advance together (S6)'],
         technique_extra='; E2 (AST->SMT, exact binary64) for the ttl millisecond arithmetic',
     )
+
+
+def spec_c15(tier, seed):
+    q = tier == 'quick'
+    ps = [500000, 100000, 1500000] if q else [1000, 100000, 250000, 500000, 999999, 1000000, 1500000, 60000000, 600000000]
+    ls = [300000, 3000000] if q else [1000, 300000, 1500000, 3000000, 600000000]
+    gaps = (0, 1, 2) if q else (0, 1, 2, 3)
+    return dict(
+        conds=[
+            Cond('c15_keepalive', 'c_echo', parts=[{'role': r, 'dlen': d} for r in ('client', 'server') for d in (0, 2, 3)], timeout=300),
+            Cond('c15_keepalive', 'c_periodic', parts=[{'p_us': p} for p in ps], timeout=300),
+            Cond('c15_keepalive', 'c_timeout', parts=[{'l_us': l, 'ngaps': g} for l in ls for g in gaps], timeout=600 if q else 1800),
+        ],
+        explanation='real endpoints on the virtual-time loop. Echo: symbolic respond flag, 63-bit position, data content, both '
+                    'roles. Periodic emission: symbolic elapsed time T <= 9.5 P, every KEEPALIVE time-stamped by the virtual clock '
+                    'must be at k*P with the respond flag, none other, none after close. Time-out: symbolic acknowledgement gaps '
+                    'in [0, 2.5 L] and symbolic silence in [0, 3.5 L]; no false time-out while gaps <= L, detection by 2 L.',
+        bounds=['keep-alive periods P in %s us, lifetimes L in %s us (configuration values; they enter asyncio.sleep as floats)' % (ps, ls),
+                'T in [0, 9.5 P]; up to %d acknowledgements with gaps in [0, 2.5 L]; silence in [0, 3.5 L] - all symbolic integers (us)' % max(gaps),
+                'echo: data 0/2/3 bytes symbolic, position high word from 4 representatives x symbolic low word'],
+        outside=['clock skew between wall clock and loop clock', 'more than %d acknowledgements' % max(gaps), 'P and L outside the configuration sets'],
+        functions=['rsocket.rsocket_base.RSocketBase.handle_keep_alive', 'rsocket.rsocket_client.RSocketClient._keepalive_send_task',
+                   'rsocket.rsocket_client.RSocketClient._keepalive_timeout_task', 'rsocket.rsocket_client.RSocketClient._update_last_keepalive',
+                   'rsocket.rsocket_client.RSocketClient._before_sender', 'rsocket.rsocket_client.RSocketClient._receiver_listen',
+                   'rsocket.rsocket_base.RSocketBase._send_new_keepalive', 'rsocket.frame_builders.to_keepalive_frame', 'rsocket.frame.KeepAliveFrame.parse'],
+        stubs=['S1', 'S2', 'S3', 'S6 (integer-microsecond clock)', 'S7 SimTransport', 'S8'],
+        assumptions=['wall clock and loop clock advance together (S6)'],
+    )
+
+
+def spec_c05(tier, seed):
+    q = tier == 'quick'
+    parts = []
+    for s1 in (True, False):
+        for v1 in range(14):
+            if q:
+                parts.append({'s1': s1, 'v1': v1, 'moments': 2, 'third': 0, 'lenhdr': (v1 % 2 == 0)})
+                if s1 and v1 in (3, 7):
+                    parts.append({'s1': s1, 'v1': v1, 'moments': 2, 'third': 1, 'lenhdr': False})
+                    parts.append({'s1': s1, 'v1': v1, 'moments': 2, 'third': 2, 'lenhdr': True})
+            else:
+                for third in (0, 1, 2):
+                    for lh in (False, True):
+                        parts.append({'s1': s1, 'v1': v1, 'moments': 3, 'third': third, 'lenhdr': lh})
+    return dict(
+        conds=[Cond('c05_wire_order', 'c_wire_order', parts=parts, timeout=600 if q else 1800)],
+        explanation='a real RSocketServer (fragment size 64) with the real sender task on a transport whose send_frame blocks '
+                    'until the harness releases it; two free frame sources (stream 1|3 x 14 variants: payload / payload+complete '
+                    'of 1..4 fragments, complete, error, cancel, request-n) plus an optional third are queued through the '
+                    'socket API before the sender starts or after the j-th emitted frame; the emitted wire sequence is fed to '
+                    'a receiver-side FrameFragmentCache: per-stream order = queue order, no same-stream frame between '
+                    'fragments, every payload reassembles to the original bytes',
+        bounds=['2 free sources + third in {none, 2-fragment payload on stream 3, COMPLETE on stream 1}', 'queuing moments 0..%d emitted frames' % (2 if q else 3),
+                '2 streams, <= 4 fragments per payload, fragment size 64, both framings', '%d partitions' % len(parts)],
+        outside=['more than 3 queued sources, more than 2 streams, other fragment sizes (C03 covers the fragmenter for all sizes)'],
+        functions=['rsocket.rsocket_base.RSocketBase._get_next_frame_to_send', 'rsocket.rsocket_base.RSocketBase._cycle_fragmented_frame_source',
+                   'rsocket.rsocket_base.RSocketBase._sender', 'rsocket.rsocket_base.RSocketBase.send_frame', 'rsocket.rsocket_base.RSocketBase.send_payload',
+                   'rsocket.rsocket_base.RSocketBase.send_error', 'rsocket.rsocket_base.RSocketBase.send_complete', 'rsocket.queue_peekable.QueuePeekable.peek',
+                   'rsocket.frame.FrameFragmentMixin.get_next_fragment', 'rsocket.frame_fragment_cache.FrameFragmentCache.append'],
+        stubs=['S1', 'S2', 'S3', 'S4', 'S7 SimTransport with blocking send', 'VLoop'],
+    )
